@@ -1,6 +1,6 @@
 (* C02 — parsing a RESP stream does not depend on how the bytes are chunked.  Property theorems only. *)
 From Coq Require Import String.
-From GR Require Import Base Resp RespFacts.
+From GR Require Import Base Resp RespFacts Transport.
 
 (* (1) for EVERY reader (sequence of chunks a transport delivers) the parser driven by Read calls returns
    what the flat parser returns on the concatenation, and leaves the same bytes unread *)
@@ -28,3 +28,23 @@ Example C02_ex : let vs := [RArr [RBulk (Some (B"GET")); RBulk (Some (B"k"))]; R
   parse_all_rd 3 (map (fun b => [b]) (flat_map encode vs)) = (vs, PEOS) /\
   parse_all_rd 3 [firstn 3 (flat_map encode vs); []; skipn 3 (flat_map encode vs)] = (vs, PEOS).
 Proof. vm_compute. auto. Qed.
+
+(* (4) however the TRANSPORT reports the end of the stream - by itself, or together with the last bytes (one Read returns n > 0
+   and io.EOF: io.Reader allows it, crypto/tls does it) - the parser, which reads through the data-first adapter
+   (proto.dataFirstReader), returns exactly the values of the bytes that were delivered, then end of stream; the adapter loses
+   nothing.  (The pinned tree looked at the error first in its line reader: C02_ex_error_first_loses_the_last_value; fix df93189.) *)
+Theorem C02_any_end_of_stream_delivery : forall vs t,
+  forallb wf vs = true -> forallb size_ok vs = true ->
+  delivered t = flat_map encode vs ->
+  parse_all_rd (Datatypes.S (length vs)) (data_first t) = (vs, PEOS).
+Proof. exact data_first_stream. Qed.
+Print Assumptions C02_any_end_of_stream_delivery.
+
+Theorem C02_adapter_loses_nothing : forall t, rd_flat (data_first t) = delivered t.
+Proof. exact data_first_flat. Qed.
+Print Assumptions C02_adapter_loses_nothing.
+
+Example C02_ex_error_first_loses_the_last_value :
+  parse_all_rd 2 (error_first [TDataErr ok_crlf]) = ([], PEOS) /\
+  parse_all_rd 2 (data_first [TDataErr ok_crlf]) = ([RStatus [79; 75]%N], PEOS).
+Proof. exact error_first_loses_the_last_value. Qed.
